@@ -54,7 +54,14 @@ func dfpnFinishes(att tak.Color, entries int, p *tak.Position, d time.Duration) 
 		return ok
 	case <-time.After(d):
 		solver.VerifAbort()
-		<-done
+		select {
+		case <-done:
+		case <-time.After(2 * time.Second):
+			// spinning without touching its table: nothing can stop it; it is left behind
+			if os.Getenv("VERIF_TIMING") != "" {
+				fmt.Fprintf(os.Stderr, "dfpn stuck without table access: att=%s entries=%d pos=%s\n", colorStr(att), entries, encPos(p))
+			}
+		}
 		return false
 	}
 }
@@ -276,6 +283,22 @@ func genC06(c *Ctx) {
 		emitSolverOps(c, p, "b"+strconv.Itoa(depth), res.Result != prove.EvalUnknown, 2, 2)
 	}
 	lap("bounded")
+
+	// (5) finished games as roots: the verdict is the result of the game
+	for k := c.Scale(64, 6400); k > 0; k-- {
+		size := 3 + r.Intn(3)
+		var last *tak.Position
+		playout(r, randomConfig(r, size), 8*size*size, func(p *tak.Position) { last = p })
+		over, who := last.GameOver()
+		if !over {
+			continue
+		}
+		c.Count("finished.winner" + colorStr(who))
+		caseNo++
+		c.Emit(fmt.Sprintf("case %d.%d", c.Shard, caseNo))
+		emitSolverOps(c, last, "b1", true, 1, 2)
+	}
+	lap("finished")
 }
 
 func init() {
